@@ -233,7 +233,12 @@ def run():
             _verif.emit("block", kind="dsb", nkeys=len(keylog))
             continue
 
-        packet = Packet(buf, ts)
+        try:
+            packet = Packet(buf, ts)
+        except Exception as e:
+            # a frame that cannot be dissected (e.g. shorter than an Ethernet header) is skipped, it must not abort the run
+            logging.warning(f"Could not dissect frame: {e}")
+            continue
 
         if packet.tcp_packet:
             if len(packet.tls_data) == 0:
